@@ -40,6 +40,9 @@ def generate(rng, tier):
         cases.append(dict(spec(kind, f, seeds[2], 3, 6, 2, progress=True), op="repro", reps=2))
         # (b) thread counts
         cases.append(dict(spec(kind, f, rng.getrandbits(64), 7, 8, 2), op="threads", threads=[1, 2, 5, 16]))
+        if kind == "hmc":
+            # a large batch (n_chains * dim >= 4096): size-triggered parallel paths must not depend on the pool either
+            cases.append(dict(spec(kind, f, rng.getrandbits(64), 2100, 2, 1), op="threads", threads=[1, 3, 16]))
         # (c) concurrency
         others = [spec(k2, f2, rng.getrandbits(64), 3, 10, 2) for k2, f2 in rng.sample(KINDS, rng.randint(1, 3))]
         if rng.random() < 0.5:
